@@ -16,7 +16,7 @@ func init() {
 	register(&Prop{
 		ID:    "C08",
 		Level: "exploration",
-		Rule: "case = history of <=40 commands issued one at a time by 1..4 sessions of one user over 2 shared mailboxes of the real in-memory backend: APPEND, SELECT/EXAMINE, STORE (+/-\\Deleted and others), EXPUNGE, UID EXPUNGE, COPY, MOVE, FETCH and SEARCH in UID and non-UID forms with static numbers, ranges and '*', NOOP, IDLE, CLOSE/UNSELECT; which session acts next comes from the plan, so views get arbitrarily stale; optionally a bystander disconnects. " +
+		Rule: "case = history of <=40 commands issued one at a time by 1..4 sessions of one user over 2 shared mailboxes of the real in-memory backend: APPEND, SELECT/EXAMINE, STORE (+/-\\Deleted and others), EXPUNGE, UID EXPUNGE, COPY, MOVE, FETCH and SEARCH in UID and non-UID forms with static numbers, ranges and '*', NOOP, IDLE, CLOSE/UNSELECT; which session acts next comes from the plan, so views get arbitrarily stale; in 1 run of 3 some adjacent commands of different sessions are issued concurrently and the schedule interleaves them inside the server; optionally a bystander disconnects. " +
 			"Oracle: a per-connection wire observer built on the independent scanner (announced count, sequence-number -> UID list reconstructed from EXISTS / EXPUNGE / FETCH UID). Non-trivial: at least two sessions selected the same mailbox and one of them changed it. Distinct: distinct event-log hashes.",
 		Components:   "real: imapserver.Conn, trackers, imapmemserver (woven); stub: scripted raw peers with wire observers, network, clock, scheduler",
 		Assumptions:  []string{"commands are issued one at a time across sessions (as the property states); only idling sessions receive data asynchronously"},
@@ -54,8 +54,12 @@ func runC08(r *R) {
 		lit  []byte
 		idle time.Duration
 		kind string
+		pair bool // overlap mode: issued concurrently with the next step (of another session)
 	}
 	var steps []step
+	// 1 run in 3: some adjacent commands of different sessions are issued concurrently, so that the schedule decides
+	// how they interleave inside the server (the per-connection invariants do not depend on a serial order)
+	overlap := t.Choose(3) == 2
 	for i := 0; i < nsess; i++ {
 		steps = append(steps, step{sess: i, line: "SELECT " + c08boxes[t.Choose(3)%2], kind: "select"})
 	}
@@ -90,6 +94,13 @@ func runC08(r *R) {
 		default:
 			s.line, s.kind = []string{"CLOSE", "UNSELECT"}[t.Choose(2)], "close"
 		}
+		if overlap && t.Choose(2) == 0 {
+			s.pair = true
+			if t.Choose(3) == 0 {
+				// a (re-)SELECT racing the next session's command
+				s.line, s.lit, s.idle, s.kind = "SELECT "+box, nil, 0, "select"
+			}
+		}
 		steps = append(steps, s)
 	}
 	bystanderDrop := t.Choose(4) == 0
@@ -117,11 +128,8 @@ func runC08(r *R) {
 				ss = append(ss, &c08sess{p: p, v: &wireView{removed: map[uint32]int{}}, name: fmt.Sprintf("session %d", i), seen: len(p.resps)})
 			}
 			selectedBy := map[string]int{}
-			for si, st := range steps {
-				s := ss[st.sess]
-				if s.p.eof {
-					continue
-				}
+			mk := func(si int) rawCmd {
+				st := steps[si]
 				c := textCmd(tag(), st.line)
 				if st.lit != nil {
 					c.Parts = cat(st.line, rawPart{IsLit: true, Lit: st.lit, Sync: si%2 == 0})
@@ -131,18 +139,22 @@ func runC08(r *R) {
 					c.Cont = []string{"DONE"}
 					c.IdleFor = st.idle
 				}
-				s.p.run([]rawCmd{c})
+				return c
+			}
+			after := func(si int) bool {
+				st := steps[si]
+				s := ss[st.sess]
 				o := s.p.outcomes[len(s.p.outcomes)-1]
 				where := fmt.Sprintf("step %d, %s: %s", si, s.name, st.line)
 				if !c08Observe(r, s, o, st.kind, st.line, where) {
-					return
+					return false
 				}
 				if o.Reply != nil && o.Reply.Name == "OK" {
 					switch st.kind {
 					case "select":
 						selectedBy[s.v.selected]++
 					case "append", "expunge", "move", "copy", "store":
-						for _, n := range selectedBy {
+						for _, n := range []int{selectedBy["INBOX"], selectedBy["Work"]} {
 							if n >= 2 {
 								sharedChange = true
 							}
@@ -152,6 +164,35 @@ func runC08(r *R) {
 				if bystanderDrop && si == len(steps)/2 && nsess > 1 {
 					ss[nsess-1].p.conn.Close()
 					ss[nsess-1].p.eof = true
+				}
+				return true
+			}
+			for si := 0; si < len(steps); si++ {
+				st := steps[si]
+				s := ss[st.sess]
+				if s.p.eof {
+					continue
+				}
+				if st.pair && si+1 < len(steps) && steps[si+1].sess != st.sess && !ss[steps[si+1].sess].p.eof {
+					s2 := ss[steps[si+1].sess]
+					c, c2 := mk(si), mk(si+1)
+					d2 := make(chan struct{})
+					simrt.GoTask(s2.p.name+"-overlap", func() {
+						defer close(d2)
+						s2.p.run([]rawCmd{c2})
+					})
+					s.p.run([]rawCmd{c})
+					waitOrTimeout(d2, 24*time.Hour)
+					r.Probe("overlapped_pair")
+					if !after(si) || !after(si+1) {
+						return
+					}
+					si++
+					continue
+				}
+				s.p.run([]rawCmd{mk(si)})
+				if !after(si) {
+					return
 				}
 			}
 			// final: after NOOP every session's reconstructed list equals UID FETCH 1:* and the lists of all
